@@ -31,6 +31,14 @@ Ltac model_unfold :=
 Lemma tie_static_inverse_of_whole_matrix : g_st_inverse_of = "whole 6x6 cij"%string.
 Proof. reflexivity. Qed.
 
+(** the loop that fills cij reads, for cell (i, j), the column c<min i j><max i j>: the table of keys obtained by
+    evaluating the loop's key expression on all 36 cells is the one of StaticModel.s_cmat
+    ([s_lookup (Nat.min i j, Nat.max i j)]) *)
+Lemma tie_static_fill_keys :
+  g_st_fill_keys = map (fun ij : Z * Z => (fst ij, snd ij, Z.min (fst ij) (snd ij), Z.max (fst ij) (snd ij)))
+                       (list_prod [1; 2; 3; 4; 5; 6]%Z [1; 2; 3; 4; 5; 6]%Z).
+Proof. vm_compute. reflexivity. Qed.
+
 Notation GEN f cl sl rho0 := (f s_to_gcm3 s_to_kms rho0 (matof cl) (matof sl)) (only parsing).
 Ltac start := g_st_unfold; model_unfold; norm_idx.
 
